@@ -188,6 +188,7 @@ def run(ctx):
 
 
 def _run(ctx, root):
+    cold = cold_threads(ctx)        # first: nothing of the library has run in this process yet
     dirs = setup_dirs(root)
     K = call_list()
     specs = [{k: v for k, v in s.items() if k not in ("gen", "doc")} for s in K]
@@ -292,6 +293,10 @@ def _run(ctx, root):
                          "samples": samples + [{"config": list(configs[1])}],
                          "bounds": {"calls": len(specs), "configs": len(configs), "pair_alphabet": len(ids), "seeds": seeds, "locales": langs}})
     tst = threads(ctx, dirs)
+    if cold is not None:
+        ctx.coverage["states"] += cold.evaluations
+        ctx.coverage["transitions"] += cold.transitions
+        ctx.coverage["traces_validated_against_impl"] += cold.evaluations
     ctx.coverage["states"] += tst.evaluations
     ctx.coverage["transitions"] += tst.transitions
     ctx.coverage["traces_validated_against_impl"] += tst.evaluations
@@ -515,6 +520,104 @@ def check_thread_case(case) -> Res:
     return Res(out, nontrivial=(name, gran, start, switches) if len(taken) == len(switches) and switches else None, violations=viol, transitions=sum(n))
 
 
+# ------------------------------------------------------------------ (d0) COLD processes: the first calls of a process, interleaved
+_COLD = {}
+
+
+def _cold_fns():
+    """two first-ever calls of a process (nothing of octave_mcp has RUN yet - only been imported)"""
+    from octave_mcp.core.emitter import emit
+    from octave_mcp.core.parser import parse_with_warnings
+
+    def canon(t):
+        def f():
+            d, ws = parse_with_warnings(t)
+            return json.dumps({"c": emit(d), "w": pm.mask(ws)}, sort_keys=True, default=repr)
+        return f
+    return canon(TA), canon(TB)
+
+
+def _cold_child(start, switches, timeout=40):
+    """fork: the child is as cold as this process; it runs ONE schedule and reports (results, point counts, taken)"""
+    r, w = os.pipe()
+    pid = os.fork()
+    if pid == 0:
+        code = 0
+        try:
+            os.close(r)
+            import signal
+            signal.alarm(timeout)
+            from ..env import threadsched as ts
+            res, n, taken = ts.run_schedule(_cold_fns(), start, tuple(tuple(x) for x in switches), "line3", timeout=timeout - 5)
+            os.write(w, json.dumps({"res": res, "n": n, "taken": taken}).encode())
+        except BaseException as e:      # noqa: BLE001
+            try:
+                os.write(w, json.dumps({"error": f"{type(e).__name__}: {e}"[:300]}).encode())
+            except OSError:
+                pass
+            code = 3
+        finally:
+            os._exit(code)
+    os.close(w)
+    chunks = []
+    while True:
+        b = os.read(r, 65536)
+        if not b:
+            break
+        chunks.append(b)
+    os.close(r)
+    os.waitpid(pid, 0)
+    try:
+        return json.loads(b"".join(chunks).decode())
+    except ValueError:
+        return {"error": "no result (child killed by its alarm?)"}
+
+
+def check_cold(case) -> Res:
+    start, switches = case
+    out = _cold_child(start, switches)
+    cs = dict(pair="cold:canon", granularity="line3", start=start, switches=[list(x) for x in switches], cold=True)
+    if "error" in out:
+        return Res("unexplored", nontrivial=None, violations=[], transitions=0, extra_nontrivial=[("unexplored", start, tuple(map(tuple, switches)), out["error"][:80])])
+    viol = []
+    for i in (0, 1):
+        if out["res"][i] != ["ok", _COLD["ref"][i]]:
+            viol.append(dict(descriptor=f"threads:cold-process:thread{i}-differs-from-sequential", case=cs, observed=str(out["res"][i])[:600], expected=str(_COLD["ref"][i])[:300]))
+    reached = len(out["taken"]) == len(switches)
+    return Res(("ok" if not viol else "violations") if reached else "unreached", nontrivial=(start, tuple(map(tuple, switches))) if reached and switches else None,
+               violations=viol, transitions=sum(out["n"]))
+
+
+def cold_threads(ctx):
+    """must run BEFORE anything in this process calls into octave_mcp: modules are imported (so no import lock is ever held at a
+    scheduling point) but no function of the library has run, so lazily built tables are still unbuilt in every forked child."""
+    import importlib
+    import pkgutil
+    import octave_mcp
+    for m in pkgutil.walk_packages(octave_mcp.__path__, "octave_mcp."):
+        if ".server" in m.name or "__main__" in m.name:
+            continue
+        try:
+            importlib.import_module(m.name)
+        except Exception:
+            pass
+    seq = _cold_child(0, ())
+    if "error" in seq:
+        ctx.note("cold-process thread sub-check skipped: " + seq["error"])
+        return None
+    # reference: the sequential (0-preemption) cold run, both orders must agree
+    seq1 = _cold_child(1, ())
+    _COLD["ref"] = [seq["res"][0][1], seq["res"][1][1]]
+    if "error" in seq1 or [seq1["res"][0][1], seq1["res"][1][1]] != _COLD["ref"] or seq["res"][0][0] != "ok" or seq["res"][1][0] != "ok":
+        ctx.violation(descriptor="threads:cold-process:sequential-orders-disagree", subcheck="threads.cold", case=dict(cold=True), observed=str((seq, seq1))[:600], expected="same results in both orders")
+        return None
+    npts = [max(seq["n"][0], seq1["n"][0]), max(seq["n"][1], seq1["n"][1])]
+    from ..env import threadsched as ts
+    cases = [(s_, sw) for s_, sw in ts.schedules(npts, 1)]
+    ctx.coverage.setdefault("bounds", {})["threads_cold"] = {"granularity": "line, first 3 visits of each source line per thread", "points": npts, "preemptions": 1, "schedules": len(cases)}
+    return ctx.explore("threads.cold", cases, check_cold, chunk=50)
+
+
 def threads(ctx, dirs):
     from ..env import threadsched as ts
     old = os.getcwd()
@@ -556,6 +659,24 @@ def threads(ctx, dirs):
 def replay(ctx, rp):
     """thread schedules are replayed exactly (same pair, granularity, start thread, switch points);
     configurations/histories are re-run as a whole: ./check C06 quick"""
+    if rp.get("subcheck") == "threads.cold":
+        import importlib
+        import pkgutil
+        import octave_mcp
+        for m in pkgutil.walk_packages(octave_mcp.__path__, "octave_mcp."):
+            if ".server" not in m.name and "__main__" not in m.name:
+                try:
+                    importlib.import_module(m.name)
+                except Exception:
+                    pass
+        seq = _cold_child(0, ())
+        _COLD["ref"] = [seq["res"][0][1], seq["res"][1][1]]
+        c = rp["case"]
+        case = (c["start"], tuple(tuple(x) for x in c["switches"]))
+        a, b = check_cold(case).violations, check_cold(case).violations
+        if [v["observed"] for v in a] != [v["observed"] for v in b]:
+            raise RuntimeError("replay divergence: the same cold schedule gave two different observations")
+        return a
     if rp.get("subcheck") != "threads":
         return []
     c = rp["case"]
